@@ -228,6 +228,38 @@ CLAIMED = {
         "in /repo (fix: commit 753942f)."),
   technique="Lean 4 proof (scan completeness/position by list induction; channel independence by construction) + cross-channel correspondence through the real CLI",
   design="DESIGN.md section 7 C19"),
+ "C17": dict(
+  text=("Lean theorems (lean/Props/C17.lean, 55) over hand-written models of the 17 checks (lean/Bandit/Plugins/Inject.lean, DjangoXss.lean, Misc.lean), each related to a decision table "
+        "written from the property text / plugin docs (lean/Bandit/Spec/Inject.lean): sql_matcher_is_pattern (for EVERY string the hand-written SIMPLE_SQL_RE matcher succeeds iff a suffix of the "
+        "case-folded string has one of the four verb shapes; regex source pinned by sql_regex_source_known, character classes regenerated from the interpreter), b608_rule (confidence rule for "
+        "every construction) + b608_single_operation / b608_method / b608_fstring (the three shapes) + b608_plain_literal_silent; b610_table, b611_table, b701_table + autoescape_direct_keyword "
+        "(breadth-first ast.walk: the call's own keyword decides), b702_table, b704_table_default, b506_table_partial / b614_table_partial (guard: module imported under its bare name) with "
+        "NEG_b506_from_import / NEG_b614_from_import (kernel-checked witnesses of the known from-import defect), b202_table with NEG_b202_members_attr_call, b201/b612/b601/b102/b101 tables, "
+        "handler_table (B110/B112 x check_typed_exception); B703: b703_literal_silent, b703_param_reported, b703_unassigned_reported, b703_literal_assignment_silent, b703_fuel_monotone (more "
+        "recursion budget never changes an answer), b703_terminates_partial (until+1 activations suffice when assignments do not hand down later lines) and NEG_b703_diverges (for EVERY fuel the "
+        "two-line self-assignment has no answer: CPython RecursionError), NEG_b703_crashes / NEG_b611_no_sql (C06 crash witnesses); one *_silent theorem per safe variant; decide +kernel end-to-end "
+        "examples through the whole per-file pipeline. Tie to /repo on every run: literal tables inside the plugin functions and the IGNORECASE/\\s character facts are regenerated "
+        "(harness/translate_local.py), ~6000 generated programs (statement grammar per check: import spellings x positional/keyword x literal/name/call/nested format x SQL verbs x +,%,.format,"
+        ".replace,f-string,multi-line x wrappers x handler forms x per-check configuration incl. assert skips globs x file paths; 2400 seeded shape/data-flow fuzz programs) are scanned by real "
+        "bandit and by the compiled Lean model and compared as (id,sev,conf,line,range,col)+internal errors over the 17 IDs, 4000 strings through SIMPLE_SQL_RE vs the matcher, and a spec oracle "
+        "written from the property text judges the implementation's output (thorough: 30000 programs + every parsable file of /repo). Partial: B506/B614/B202/B703 as named above; CPython's "
+        "recursion limit itself is not modelled (divergence is); what counts as 'SQL-looking' across several literals and keyword-argument wrappers are left open by the oracle."),
+  technique="Lean 4 proof (decision tables, induction over the SQL matcher and the B703 recursion, decide +kernel examples) + differential correspondence with spec oracle",
+  design="DESIGN.md section 7 C17"),
+ "C06": dict(
+  text=("Lean theorems (lean/Props/C06.lean; a check 'raises' iff its model returns .error): evaluators_total — _get_literal_value, call_args, call_keywords, get_call_arg_at_position, "
+        "get_call_arg_value, check_call_arg_value return on EVERY node (proved by induction over the nested tree type via Node.rec; set displays with unhashable elements included since /repo fix "
+        "94606d1), no_crash_event (a check whose decision returns on a positioned node yields no internal-error event: the tester's own defaults cannot fail there), shell_checks_total, "
+        "blacklist_total (__import__() / importlib.import_module() without a name included, /repo fix 24ed4b7), b106_total (f(**\"x\") included, fix c28be0a), b103_total, kw_checks_total, "
+        "simple_checks_total, visited_has_parent (every visited node has a parent, by induction over the traversal); per-check totality / no-raise results of the other families are in Props.C15 "
+        "(b505_classify_total, REG_* no-crash) and Props.C17 (b611_table 'never raises', NEG_b703_crashes for the pinned commit, b703_terminates_partial). PARTIAL: the model's knowledge of which Python "
+        "operations raise is hand-written. It is closed empirically on every run by the crash monitor: every callee spelling of bandit's examples + every blacklist qualified name + the names the "
+        "plugins key on (~400 callees) x an argument-shape grammar (0-3 positionals from 40 shapes incl. starred / unhashable set displays / walrus / lambdas, keywords from 31 keyed names, **dict / "
+        "**\"x\" / **f()) + 56 statement shapes (defaults, handlers, string positions, SQL constructions, mark_safe data flows incl. the former non-terminating one) — a logged internal error, an escaped "
+        "exception or a file demoted to skipped is a violation; the full Lean model (all 41 plugins + blacklist) is compared with real bandit on bandit's own examples (thorough: every .py of /repo). "
+        "Twelve crash defects of the pinned commit found this way were repaired in /repo (see known_findings.json 'fixed')."),
+  technique="Lean 4 proof (totality by nested induction) + crash-monitor exploration + full-model correspondence",
+  design="DESIGN.md section 7 C06"),
 }
 
 REASON_PENDING = "check not built yet (work in progress; DESIGN.md section 11 gives the build order)"
